@@ -2,6 +2,8 @@ import Ecal.Lemmas.ExprFuel
 import Ecal.Lemmas.ExprTotal
 import Ecal.Lemmas.ExprSound
 import Ecal.Gen.C03
+import Ecal.Model.ExprLex
+import Ecal.Props.C18
 /-!
 # C03 — expressions evaluate per the documented operator semantics and precedence
 
@@ -383,7 +385,7 @@ def Val.isBool : Val N → Bool
   | _ => false
 
 def Val.isList : Val N → Bool
-  | .list _ => true
+  | .list _ _ _ => true
   | _ => false
 
 def Out.isVal : Out N → Bool
@@ -543,6 +545,22 @@ theorem mod_is_truncated_remainder (a b : Int) (hb : b ≠ 0) :
     have := Int.tmod_nonneg (a := -a) b (by omega)
     rw [Int.neg_tmod] at this; omega
 
+/-- with the exact carrier `+ - * /` are the field operations and `< <=` the order of the
+    rationals (definitional; stated so that the list of laws that hold exactly is complete). What
+    does NOT transfer to float64 and is only tested there: exactness and associativity (rounding),
+    `x / 0` (±Inf / NaN in Go, no error), NaN comparisons (all false), -0, overflow to ±Inf, and
+    `int64(x)` outside the int64 range (known finding `mod-out-of-int64-range`). What transfers
+    unchanged: the structure around the carrier — operand order, kind checks, error naming, the
+    text fallback of comparisons, `//` = floor∘div and `%` = ofInt∘tmod∘toInt as compositions. -/
+theorem arith_is_exact (a b : Rat) :
+    Impl.eval (ratCfg a b) (.bin .plus [43] vx vy) = .val (.num (a + b)) ∧
+    Impl.eval (ratCfg a b) (.bin .minus [45] vx vy) = .val (.num (a - b)) ∧
+    Impl.eval (ratCfg a b) (.bin .times [42] vx vy) = .val (.num (a * b)) ∧
+    Impl.eval (ratCfg a b) (.bin .div [47] vx vy) = .val (.num (a / b)) ∧
+    Impl.eval (ratCfg a b) (.bin .lt [60] vx vy) = .val (.bool (decide (a < b))) ∧
+    Impl.eval (ratCfg a b) (.bin .geq [62, 61] vx vy) = .val (.bool (decide (b ≤ a))) := by
+  simp [Impl.eval, Impl.binOp, Impl.numOp, Impl.cmpOp, Impl.atomVal, ratCfg, ratNum, vx, vy]
+
 theorem mod_by_zero_is_error (a : Int) :
     Impl.eval (ratCfg a 0) (.bin .modint [37] vx vy) = .err .runtime [] none := by
   have : truncQ (0 : Rat) = 0 := by decide
@@ -566,9 +584,9 @@ theorem string_comparisons (n1 n2 : Str) (a b : Str) :
   simp [Impl.binOp, Impl.cmpOp, Impl.numOp, Impl.strOp, Val.text]
 
 /-- `notin` is the negation of `in` -/
-theorem notin_is_not_in (n1 n2 : Str) (v : Val N) (vs : Vals N) :
-    Impl.binOp G .notin n1 n2 (.val v) (.val (.list vs)) = .val (.bool (!Vals.has G.C v vs)) ∧
-    Impl.binOp G .isin n1 n2 (.val v) (.val (.list vs)) = .val (.bool (Vals.has G.C v vs)) := by
+theorem notin_is_not_in (n1 n2 : Str) (v : Val N) (a : Nat) (n : Bool) (vs : Vals N) :
+    Impl.binOp G .notin n1 n2 (.val v) (.val (.list a n vs)) = .val (.bool (!Vals.has G.C v vs)) ∧
+    Impl.binOp G .isin n1 n2 (.val v) (.val (.list a n vs)) = .val (.bool (Vals.has G.C v vs)) := by
   simp [Impl.binOp, Impl.listOp]
 
 end Sanity
@@ -637,6 +655,93 @@ theorem strLt_trans : ∀ a b c : Str, strLt a b = true → strLt b c = true →
             have : x = z := by omega
             subst this
             simp [strLt_trans xs ys zs h1 h2]
+
+/-! ## Lists as Go compares them -/
+
+/-- a list held by the environment equals itself whatever it holds (reflect.DeepEqual stops at
+    identical backing arrays): `l == l` is true even for `l = [NaN]` -/
+theorem list_identity_shortcut {N : Type} (C : Num N) (a : Nat) (n : Bool) (vs : Vals N) (ha : a ≠ 0) :
+    Val.eqv C (.list a n vs) (.list a n vs) = true := by
+  simp [Val.eqv, ha]
+
+/-- a nil list (the value of `[]`) and an empty non-nil list are NOT equal -/
+theorem nil_ne_empty {N : Type} (C : Num N) (a b : Nat) :
+    Val.eqv C (.list a true .nil) (.list b false .nil) = false := by
+  simp [Val.eqv]
+
+/-! ## From source bytes: what the lexer model guarantees to the parser (C18's theorems) -/
+
+theorem convAll_cons (num : List (Str × Nat)) (x : Ecal.Lex.Tok) (l : List Ecal.Lex.Tok) (ts : List LTok)
+    (h : convAll num (x :: l) = some ts) :
+    ∃ a as, convTok num x = some a ∧ convAll num l = some as ∧ ts = a :: as := by
+  rw [convAll] at h
+  cases hx : convTok num x with
+  | none => simp [hx] at h
+  | some a =>
+    cases hr : convAll num l with
+    | none => simp [hx, hr] at h
+    | some as => simp [hx, hr] at h; exact ⟨a, as, rfl, rfl, h.symm⟩
+
+theorem convAll_last (num : List (Str × Nat)) : ∀ (l : List Ecal.Lex.Tok) (ts : List LTok) (t : Ecal.Lex.Tok),
+    convAll num l = some ts → l.getLast? = some t → ∃ t', ts.getLast? = some t' ∧ convTok num t = some t'
+  | [], _, _, _, h => by simp at h
+  | [x], ts, t, hc, h => by
+    simp only [List.getLast?_singleton, Option.some.injEq] at h
+    subst h
+    obtain ⟨a, as, h1, h2, rfl⟩ := convAll_cons num _ _ _ hc
+    simp only [convAll, Option.some.injEq] at h2
+    subst h2
+    exact ⟨a, by simp, h1⟩
+  | x :: y :: rest, ts, t, hc, h => by
+    obtain ⟨a, as, _, h2, rfl⟩ := convAll_cons num _ _ _ hc
+    have h' : (y :: rest).getLast? = some t := by simpa [List.getLast?_cons_cons] using h
+    obtain ⟨t', h1, h3⟩ := convAll_last num (y :: rest) as t h2 h'
+    refine ⟨t', ?_, h3⟩
+    cases as with
+    | nil => simp at h1
+    | cons b bs => simpa [List.getLast?_cons_cons] using h1
+
+/-- C03 (source level, by C18's `lexer_always_closes`): for EVERY source text the token list handed
+    to the parser is not empty and ends with the EOF token or with the lexer's error token — the
+    shape `tokens ++ [EOF]` that `pratt_print` and `parse_sound` speak about is the only one a
+    successfully lexed source has. -/
+theorem lexed_source_closes (num : List (Str × Nat)) (src : List Nat) (ts : List LTok)
+    (h : lexTokens num src = some ts) :
+    ∃ t, ts.getLast? = some t ∧ (t.tk = .eof ∨ t.tk = .other errorName) := by
+  obtain ⟨t, hb, hid⟩ := Ecal.Props.C18.lexer_always_closes src
+  have hl : (Ecal.Lex.lex src).toList.getLast? = some t := by
+    rw [← hb]; simp [Array.back?, List.getLast?_eq_getElem?]
+  obtain ⟨t', h1, h2⟩ := convAll_last num _ ts t h hl
+  refine ⟨t', h1, ?_⟩
+  simp only [convTok, Option.map_eq_some_iff] at h2
+  obtain ⟨k, hk, rfl⟩ := h2
+  rcases hid with hid | hid
+  · left
+    simp [tkOfLex, hid] at hk
+    exact hk.symm
+  · right
+    simp [tkOfLex, hid, Ecal.Lex.tERROR, Ecal.Lex.tEOF, Ecal.Lex.tSTRING, Ecal.Lex.tIDENTIFIER, Ecal.Lex.tNUMBER] at hk
+    exact hk.symm
+
+/-- kinds and texts of the tokens of a source (for the instances below) -/
+def lexKinds (src : String) : List (Nat × List Nat) :=
+  (Ecal.Lex.lex (Ecal.Lex.str src)).toList.map fun t => (t.id, t.val)
+
+/-! ### number-literal splitting: instances (tests of the lexer model the driver runs; the general
+    statement — a NUMBER token's text starts with a digit and is accepted by ParseFloat, `e` belongs
+    to it only before `+digit` — needs C18's per-token invariant extended and is not proved) -/
+
+/-- `1 -2` : number, minus, number -/
+example : lexKinds "1 -2" = [(6, [49]), (34, [45]), (6, [50]), (1, [])] := by decide +kernel
+/-- `1e5` : the number ends before `e` (no `+`): number `1`, identifier `e5` -/
+example : lexKinds "1e5" = [(6, [49]), (7, [101, 53]), (1, [])] := by decide +kernel
+/-- `1e+5` is one number -/
+example : lexKinds "1e+5" = [(6, [49, 101, 43, 53]), (1, [])] := by decide +kernel
+/-- `1.2.3` and `1e+999` are not numbers (ParseFloat rejects them): the lexer ends with an error token -/
+example : ((lexKinds "1.2.3").getLast?.map (·.1)) = some 0 ∧ ((lexKinds "1e+999").getLast?.map (·.1)) = some 0 := by
+  decide +kernel
+/-- `5.` is the number `5.` -/
+example : lexKinds "5." = [(6, [53, 46]), (1, [])] := by decide +kernel
 
 /-! ### non-vacuity of the semantic theorems: a toy carrier (integers) -/
 
